@@ -24,6 +24,11 @@ func c02Fix() *Fix {
 	for k := 1; k <= 4; k++ {
 		f.Raw(fmt.Sprintf("Pp%d", k), f.Items["P"], append(append([]byte{}, f.Items["P"].Data...), []byte(strings.Repeat(" ", k))...))
 	}
+	// an index that lists I1 with an inaccurate size (sizes in a pushed index are the client's claim, nothing checks them):
+	// what is served for I1 stays I1's own bytes and length
+	bad := strings.Replace(string(h.Index(mtIdx, []h.Desc{f.Items["I1"].Desc()}, nil, "", map[string]string{"claims": "a wrong size"})), fmt.Sprintf(`"size":%d`, len(f.Items["I1"].Data)), fmt.Sprintf(`"size":%d`, len(f.Items["I1"].Data)+7), 1)
+	xb := f.Raw("Xbad", f.Items["X"], []byte(bad))
+	xb.MT, xb.Children = mtIdx, []string{"I1"}
 	return f
 }
 
@@ -34,7 +39,7 @@ func c02Specs(tier string) []*h.SeqSpec {
 	const repo = "r"
 	limit := int64(len(f.Items["P"].Data) + 2)
 	tags := []string{"t1", "t2"}
-	items := []string{"b0", "b4", "I1", "I2", "D1", "DL", "X2", "X", "Y", "P", "Pp1", "Pp2", "Pp3", "Pp4"}
+	items := []string{"b0", "b4", "I1", "I2", "D1", "DL", "X2", "X", "Y", "Xbad", "P", "Pp1", "Pp2", "Pp3", "Pp4"}
 	var specs []*h.SeqSpec
 	for _, store := range []string{"mem", "dir"} {
 		store := store
@@ -45,7 +50,7 @@ func c02Specs(tier string) []*h.SeqSpec {
 				ops = append(ops, opPushMan("C02", repo, f, n, t))
 			}
 		}
-		ops = append(ops, opPushMan("C02", repo, f, "D1", "t1"), opPushMan("C02", repo, f, "DL", ""), opPushMan("C02", repo, f, "X2", "t2"))
+		ops = append(ops, opPushMan("C02", repo, f, "D1", "t1"), opPushMan("C02", repo, f, "DL", ""), opPushMan("C02", repo, f, "X2", "t2"), opPushMan("C02", repo, f, "Xbad", ""))
 		// a nested index pushed completely (children by digest, untagged): its grandchildren are only reachable through two levels
 		ops = append(ops, h.Op{Name: "push nested index Y completely as t1", Do: func(w *h.World) []h.Violation { return gcPushMacro(w, f, repo, "Y", "t1") }})
 		pads := []int{2, 3}
@@ -107,7 +112,7 @@ func c02Specs(tier string) []*h.SeqSpec {
 				return nil
 			}})
 		}
-		depth := 5
+		depth := 4
 		if tier == "thorough" {
 			depth = 6
 		}
